@@ -66,6 +66,11 @@ type RunSpec struct {
 	// optional: the registry to run from (the same registered scenario object run
 	// more than once); ScenarioFn is ignored then
 	Scenarios *scenarios.Scenarios
+	// optional: the output the run displays on (instead of the capturing / discarding one)
+	Output *ui.Output
+	// optional: scenario logs go to this file instead of the output (not verbose), which is
+	// the configuration in which an interactive output prints the rendered views
+	LogFile string
 }
 
 // Built is a constructed run plus what the oracles need.
@@ -145,7 +150,7 @@ func (rs *RunSpec) Build() (*Built, error) {
 	if opts.Scenario == "" {
 		opts.Scenario = "s"
 	}
-	opts.Verbose = true // log to the output, never to a file
+	opts.Verbose = rs.LogFile == "" // log to the output, not to a file, unless the spec names one
 	m := rs.Metrics
 	var reg *prometheus.Registry
 	if m == nil {
@@ -160,11 +165,14 @@ func (rs *RunSpec) Build() (*Built, error) {
 	if rs.Quiet {
 		out = ui.NewOutput(DiscardLogger(), ui.NewDiscardPrinter(), false, true)
 	}
+	if rs.Output != nil {
+		out = rs.Output
+	}
 	ct := rs.CompletionTimeout
 	if ct == 0 {
 		ct = 10 * time.Second
 	}
-	r, err := run.NewRun(opts, scs, tr, ct, envsettings.Settings{}, m, out)
+	r, err := run.NewRun(opts, scs, tr, ct, envsettings.Settings{Log: envsettings.Log{FilePath: rs.LogFile}}, m, out)
 	if err != nil {
 		return nil, err
 	}
